@@ -3,7 +3,7 @@
    this is what the model driver ocaml/drv_c03.ml runs. *)
 From Coq Require Import List Arith NArith Bool ZArith.
 From NngV Require Import Gen.Consts Proto.Common Ledger.Ledger Ledger.Views.
-From NngV Require Proto.BusModel Proto.ReqModel Proto.RepModel Proto.XReqModel Proto.XRepModel
+From NngV Require Proto.PushModel Proto.BusModel Proto.ReqModel Proto.RepModel Proto.XReqModel Proto.XRepModel
   Proto.XSurveyModel Proto.SurveyCur.
 
 Definition req_fix_cur : ReqModel.rfix :=
@@ -16,6 +16,8 @@ Definition rep_step_cur := RepModel.rep_step rep_fix_cur.
 Definition xreq_step_cur := XReqModel.xreq_step mq_fix_cur04.
 Definition xrep_step_cur := XRepModel.xrep_step mq_fix_cur04.
 Definition bus_step_cur := BusModel.bus_step BUS_SEND_NO_AIO_START.
+(* push0_set_send_buf_len: the pinned text or the repair of finding push-resize-overtakes-blocked *)
+Definition push_step_cur := PushModel.push_step_r C06_PUSH_RESIZE_ADMITS_FIXED.
 
 Definition view_bus_cur := VBus.view BUS_SEND_NO_AIO_START C03_BUS_START_BEFORE_DETACH.
 Definition view_req_cur := VReq.view req_fix_cur.
